@@ -157,6 +157,7 @@ func (p *producer) ledgerReadScript(o Op) ([]byte, string) {
 		what = fmt.Sprintf("getTransaction(of block %d)", idx)
 	default:
 		emit.AppCall(w.BinWriter, nativehashes.LedgerContract, "getTransactionVMState", 0x0f, txOf())
+		p.vmStateReads = append(p.vmStateReads, [2]uint32{h + 1, idx})
 		emit.Opcodes(w.BinWriter, opcode.PUSH0, opcode.NUMEQUAL)
 		what = fmt.Sprintf("getTransactionVMState(of block %d)", idx)
 	}
@@ -174,4 +175,17 @@ func (p *producer) ledgerReadScript(o Op) ([]byte, string) {
 		panic(w.Err)
 	}
 	return w.Bytes(), fmt.Sprintf("K%d.put(key, Ledger.%s is absent ? 1 : 2) at height %d (MaxTraceableBlocks %d)", o.B%numContracts, what, h, mtb)
+}
+
+// ledgerVMStateOfBlockUpTo tells whether the block the producer made at height x holds a script that asks the native
+// Ledger contract for the VM state of a transaction of a block with index <= upTo (recorded finding: a
+// state-synchronised node has the blocks of the traceable window before its sync point, but never executed them and
+// has no execution results for their transactions).
+func (r *run) ledgerVMStateOfBlockUpTo(x, upTo uint32) bool {
+	for _, rd := range r.prod.vmStateReads {
+		if rd[0] == x && rd[1] <= upTo {
+			return true
+		}
+	}
+	return false
 }
